@@ -1156,3 +1156,120 @@ func isBuiltinCall(c ssa.CallInstruction, name string) bool {
 	b, ok := c.Common().Value.(*ssa.Builtin)
 	return ok && b.Name() == name
 }
+
+// ---- fail-closed primitive ---------------------------------------------------
+
+// failsClosed: the error result of call c (in f) is tested, and from every edge on
+// which it is non-nil no nil-error return of f is reachable (the failure is not
+// swallowed). Returns ok and a reason.
+func failsClosed(f *ssa.Function, c ssa.CallInstruction) (bool, string) {
+	nilE, nonNilE := nilTestEdgesCall(c)
+	if len(nilE)+len(nonNilE) == 0 {
+		// the error may be returned directly (`return g()`): then it is propagated
+		for _, ev := range errValues(c) {
+			for _, s := range errReturnSites(f) {
+				for _, a := range aliasesOf(ev) {
+					if s.val == a {
+						return true, "returned directly"
+					}
+				}
+			}
+		}
+		return false, "error result is never tested nor returned"
+	}
+	for _, e := range nonNilE {
+		reach := reachableFromEdge(f, e, nil)
+		for _, s := range errReturnSites(f) {
+			if !isNilConst(s.val) {
+				continue
+			}
+			if s.pred != nil {
+				if reach[s.pred] {
+					return false, "a nil return is reachable after the call failed"
+				}
+			} else if reach[s.ret.Block()] {
+				return false, "a nil return is reachable after the call failed"
+			}
+		}
+	}
+	return true, "failure edge reaches no nil return"
+}
+
+// staticCallees: transitive closure of statically resolved callees within the module
+// (plus UnmarshalJSON methods of types decoded by encoding/json.Unmarshal calls).
+func staticCallees(p *Program, root *ssa.Function) map[string]bool {
+	seen := map[string]bool{}
+	var visit func(f *ssa.Function)
+	visit = func(f *ssa.Function) {
+		if f == nil || seen[fnName(f)] {
+			return
+		}
+		seen[fnName(f)] = true
+		if f.Blocks == nil {
+			return
+		}
+		for _, fn := range withAnon(f) {
+			for _, c := range callsIn(fn) {
+				if sc := c.Common().StaticCallee(); sc != nil {
+					if sc.Pkg != nil && strings.HasPrefix(sc.Pkg.Pkg.Path(), modPath) {
+						visit(sc)
+					}
+					if n := calleeName(c); n == "encoding/json.Unmarshal" || n == "encoding/xml.Unmarshal" {
+						args := c.Common().Args
+						if len(args) == 2 {
+							for _, m := range decoderMethods(p, args[1], "") {
+								visit(m)
+							}
+						}
+					}
+				}
+			}
+		}
+	}
+	visit(root)
+	return seen
+}
+
+// decoderMethods: UnmarshalJSON methods of the pointed-to type and of the types of its
+// (nested) fields / elements.
+func decoderMethods(p *Program, arg ssa.Value, _ string) []*ssa.Function {
+	if mi, ok := arg.(*ssa.MakeInterface); ok {
+		arg = mi.X
+	}
+	var out []*ssa.Function
+	seen := map[types.Type]bool{}
+	var walk func(t types.Type, d int)
+	walk = func(t types.Type, d int) {
+		if t == nil || seen[t] || d > 6 {
+			return
+		}
+		seen[t] = true
+		for _, tt := range []types.Type{t, types.NewPointer(t)} {
+			ms := p.SSA.MethodSets.MethodSet(tt)
+			for i := 0; i < ms.Len(); i++ {
+				if ms.At(i).Obj().Name() == "UnmarshalJSON" {
+					if fn := p.SSA.MethodValue(ms.At(i)); fn != nil {
+						out = append(out, fn)
+					}
+				}
+			}
+		}
+		switch u := t.Underlying().(type) {
+		case *types.Pointer:
+			walk(u.Elem(), d+1)
+		case *types.Struct:
+			for i := 0; i < u.NumFields(); i++ {
+				walk(u.Field(i).Type(), d+1)
+			}
+		case *types.Slice:
+			walk(u.Elem(), d+1)
+		case *types.Array:
+			walk(u.Elem(), d+1)
+		case *types.Map:
+			walk(u.Key(), d+1)
+			walk(u.Elem(), d+1)
+		}
+	}
+	walk(arg.Type(), 0)
+	return out
+}
